@@ -18,7 +18,7 @@ RULE = ('mask cases = (card number of every length 10..40, digits or arbitrary c
 ASSUMPTIONS = ['vmon/ref/codec.py encoder builds the wire image (masking is decode-side only)', 'vmon/ref/blocking.py for the IpmReader route']
 
 
-SPECIAL = ['\n', '\r', '\t', '\x00', '\x0b', '\x0c', '\x1c', '\x7f', '\x85', '\xa0', '\u2028', '\u2029', ' ', '\\', '$', '^', '.', '*', '{', '%']
+SPECIAL = ['\n', '\r', '\t', '\x00', '\x0b', '\x0c', '\x1c', '\x7f', '\x85', '\xa0', '\u2028', '\u2029', ' ', '\\', '$', '^', '.', '*', '{', '%', '=', 'D', ';', '?']
 
 
 def prepare(ctx):
